@@ -22,7 +22,8 @@ RULE = ("a scenario = (continuum, dissimilarity, sampler, mode, n_samples, preci
         "(M-EXEC) that replaces the library's ThreadPoolExecutor: worker counts 1,2,3,5,8,16; jobs held until the "
         "submitter blocks, then started in reverse order / best-alignment-job last / seeded random permutations; "
         "free running with 0-5 ms jitter under sys.setswitchinterval(1e-5); the genuine ThreadPoolExecutor with "
-        "os.cpu_count patched; plus plain repetition in the same process; results must be bit-identical.  A set of "
+        "os.cpu_count patched; GIL hand-offs injected (sys.monitoring LINE events) at random statement boundaries of the "
+        "library's Python code inside the jobs; plus plain repetition in the same process; results must be bit-identical.  A set of "
         "common scenarios is also run by every worker process, each under a different PYTHONHASHSEED (0, 1, 2, 3, "
         "random...) and the digests are compared across processes. non-trivial = scenario with >= 2 jobs; distinct = "
         "distinct (scenario, schedule)")
@@ -35,7 +36,8 @@ ASSUMPTIONS = [
 ]
 HASH_SEEDS = ["0", "1", "2", "3", "random", "12345", "random", "7", "99", "random", "4242", "31337", "random", "5", "6", "8"]
 POLICIES = [("fifo", 1), ("fifo", 2), ("fifo", 16), ("lifo", 1), ("lifo", 3), ("first-last", 1), ("first-last", 5),
-            ("random", 1), ("random", 2), ("random", 8), ("jitter", 3), ("jitter", 16), ("real", 2), ("real", 16)]
+            ("random", 1), ("random", 2), ("random", 8), ("jitter", 3), ("jitter", 16), ("real", 2), ("real", 16),
+            ("yield", 3), ("yield", 8)]
 
 
 def plan(tier, seed):
@@ -74,7 +76,16 @@ def result_vector(ctx, sc, policy, workers, sched_seed):
     real_cpu = os.cpu_count
     old_switch = sys.getswitchinterval()
     sched.take_records()
-    if policy == "real":
+    injector = None
+    if policy == "yield":
+        # free-running pool + GIL hand-offs injected at random statement boundaries of the library inside the jobs
+        import pygamma_agreement
+        sched.use_real(False)
+        sched.CURRENT = sched.Config("fifo", workers, sched_seed)
+        sys.setswitchinterval(1e-5)
+        injector = sched.YieldInjector(seed=sched_seed, probability=0.05)
+        injector.start(os.path.dirname(os.path.realpath(pygamma_agreement.__file__)))
+    elif policy == "real":
         sched.use_real(True)
         os.cpu_count = lambda: workers
         sys.setswitchinterval(1e-5)
@@ -104,6 +115,11 @@ def result_vector(ctx, sc, policy, workers, sched_seed):
                     except ZeroDivisionError:
                         vals.append(float("nan"))
     finally:
+        if injector is not None:
+            injector.stop()
+            ctx.observe("yield_injection", "runs")
+            ctx.observe("yield_injection", "gil-handoffs-injected", injector.yields)
+            ctx.observe("yield_injection", "statement-boundaries-seen-in-worker-threads", injector.lines_seen)
         os.cpu_count = real_cpu
         sys.setswitchinterval(old_switch)
         sched.use_real(False)
